@@ -22,3 +22,11 @@ Theorem fold_pass_history_independent : forall r, In r RuleCfgs.passes ->
     observable (run_match orc fuel (r_check r) (r_rewrite r) (run_history r h s0) tr) =
     observable (run_match orc fuel (r_check r) (r_rewrite r) s0 tr).
 Proof. exact (all_rules_history_independent RuleCfgs.passes passes_all_ok). Qed.
+
+Theorem shipped_rules_target_history_independent : forall r, In r RuleCfgs.all ->
+  forall (h ms : list (oracle * nat * trace)) (s0 : state),
+    run_target r ms (run_history r h s0) = run_target r ms s0.
+Proof.
+  intros r Hin. apply target_history_independent.
+  pose proof rules_all_ok as H. rewrite forallb_forall in H. apply H, Hin.
+Qed.
